@@ -91,6 +91,9 @@ pub struct MPattern {
 
 impl MPattern {
     pub fn accepts(&self, x: u8) -> bool {
+        if self.mask == MASK_REPORTING_MATCHER {
+            return x == 0;
+        }
         self.mask < 8 && x < 3 && (self.mask >> x) & 1 == 1
     }
 
